@@ -38,11 +38,17 @@ DOC_TYPES = [
     [['ref', 'A'], ['list', ['ref', 'A']], ['ref', 'S'], 'any'],
     ['any', ['dict', 'str', 'int'], 'float', ['list', 'str']],
 ]
+# "model 4": the classes of model 2, registered without the base class A (a
+# function that knows only B and S must not apply A's hooks)
+PARTIAL = 4
+PARTIAL_OF = 2
+PARTIAL_WITHOUT = 'A'
+DOC_TYPES.append([['ref', 'B'], ['list', ['ref', 'B']], ['ref', 'S'], ['dict', 'str', ['ref', 'B']]])
 DOCS = ['{a: 1}', '{a: x}', '{a: 1, b: 2}', '{x: {a: 1}}', '[{a: 1}, {a: 2}]', 'red',
         '!A {a: 1}', '!B {x: {a: 1}}', '{x: {a: 1}, n: !A {a: 1}}', '{k: !A {a: 1}}',
         'yes', '1e5', '{a: 1, zz: 2}', '&x [*x]', '', '{a: 1, s: hello, some-key: 3}',
         '{k: {a: q}}', '[a, b]', '{k: 1}', '1.5', ': :', '!Color red', '{a: [}',
-        '{x: &n {a: 1}, n: *n}']
+        '{x: &n {a: 1}, n: *n}', '[{a: 1, s: x, some-key: 3}]', '{k: {a: 2, s: y, other-key: z}}']
 VALUES = [
     [['obj', 'A', [['a', ['int', 1]]], None],
      ['obj', 'B', [['x', ['obj', 'A', [['a', ['int', 2]]], None]], ['n', ['list', [['str', '1e5'], ['none']]]]], None],
@@ -118,6 +124,12 @@ def make_value(m, vs):
     return m.realize(vs)
 
 
+def partial_load_function(m, ti):
+    import yatiml
+    regs = [c for c in m.registered if c.__name__ != PARTIAL_WITHOUT]
+    return yatiml.load_function(m.ty(DOC_TYPES[PARTIAL][ti]), *regs)
+
+
 def do_query(q):
     """Perform one call on freshly built classes/functions; canonical outcome."""
     import yaml
@@ -127,8 +139,12 @@ def do_query(q):
     kind = q[0]
     if kind == 'load':
         _, mi, ti, di = q
-        m = models.Model(dict(MODELS[mi], doc_type=DOC_TYPES[mi][ti]))
-        fn = m.load
+        if mi == PARTIAL:
+            m = models.Model(dict(MODELS[PARTIAL_OF], doc_type='any'))
+            fn = partial_load_function(m, ti)
+        else:
+            m = models.Model(dict(MODELS[mi], doc_type=DOC_TYPES[mi][ti]))
+            fn = m.load
         return outcome(lambda: canon(fn(DOCS[di])))
     if kind == 'dump':
         _, mi, dk, vm, vi, oi = q
